@@ -40,14 +40,22 @@ func TestVerif_C06_Real(t *testing.T) {
 		name   string
 		counts []int
 		filler int // distinct single-transaction addresses pushed half-way (triggers the periodic partial flush when > 100000)
+		// hot > 0: before anything else, `hot` further addresses receive 2000 transactions each (two full batches);
+		// the filler is then pushed after the LAST transaction of counts[0]'s first 1005 and padded so that the next
+		// push lands on a slot that is a multiple of 500 (the periodic flush runs while counts[0]'s address has one
+		// full batch parked in the background writer and 5 newer entries pending)
+		hot int
 	}
 	scs := []scenario{
-		{"around-batch-size", []int{1, 2, 999, 1000, 1001, 1999, 2000, 2001, 3000, 3001}, 0},
-		{"periodic-flush", []int{1, 50, 99, 100, 150, 999, 1000, 1001, 2500}, 100_500},
+		{"around-batch-size", []int{1, 2, 999, 1000, 1001, 1999, 2000, 2001, 3000, 3001}, 0, 0},
+		{"periodic-flush", []int{1, 50, 99, 100, 150, 999, 1000, 1001, 2500}, 100_500, 0},
 	}
+	// more addresses with two full batches than the writer's pop-rank list holds (10 000), then an address with
+	// exactly one full batch and a short tail when the periodic flush runs
+	scs = append(scs, scenario{"rank-list-overflow", []int{1008, 2000, 150}, 100_025, 10_001})
 	if vkit.Thorough() {
-		scs = append(scs, scenario{"multiples", []int{4000, 5000, 5001, 7999, 8000, 10000}, 0},
-			scenario{"periodic-flush-twice", []int{1, 99, 100, 101, 1000, 2000, 2001}, 201_000})
+		scs = append(scs, scenario{"multiples", []int{4000, 5000, 5001, 7999, 8000, 10000}, 0, 0},
+			scenario{"periodic-flush-twice", []int{1, 99, 100, 101, 1000, 2000, 2001}, 201_000, 0})
 	}
 	for si, sc := range scs {
 		if !vkit.Mine(int64(si)) {
@@ -89,6 +97,19 @@ func TestVerif_C06_Real(t *testing.T) {
 			return true
 		}
 		ok := true
+		for round := 0; sc.hot > 0 && round < 2000 && ok; round++ {
+			for h := 0; h < sc.hot && ok; h += 25 {
+				var hp solana.PublicKeySlice
+				for k := 0; k < 25 && h+k < sc.hot; k++ {
+					hp = append(hp, c06Key(5_000_000+h+k))
+				}
+				ok = push(hp)
+			}
+		}
+		fillerAt := maxc / 2
+		if sc.hot > 0 {
+			fillerAt = 1004 // after the 1005th transaction of counts[0]
+		}
 		for i := 0; i < maxc && ok; i++ {
 			var pks solana.PublicKeySlice
 			for ci, c := range sc.counts {
@@ -97,7 +118,7 @@ func TestVerif_C06_Real(t *testing.T) {
 				}
 			}
 			ok = push(pks)
-			if ok && i == maxc/2 && sc.filler > 0 {
+			if ok && i == fillerAt && sc.filler > 0 {
 				// many distinct addresses, 25 per transaction; slots keep advancing so a multiple of 500 is met
 				for f := 0; f < sc.filler && ok; f += 25 {
 					var fp solana.PublicKeySlice
@@ -105,6 +126,9 @@ func TestVerif_C06_Real(t *testing.T) {
 						fp = append(fp, c06Key(1000+f+k))
 					}
 					ok = push(fp)
+				}
+				for pad := 0; sc.hot > 0 && ok && (slot+1)%500 != 0; pad++ {
+					ok = push(solana.PublicKeySlice{c06Key(9_000_000 + pad)})
 				}
 			}
 		}
@@ -141,6 +165,9 @@ func TestVerif_C06_Real(t *testing.T) {
 		for ci, c := range sc.counts {
 			check(c06Key(ci), fmt.Sprintf("count=%d", c))
 		}
+		for h := 0; h < sc.hot; h += 1009 {
+			check(c06Key(5_000_000+h), "hot")
+		}
 		// every 997th filler address
 		for f := 0; f < sc.filler; f += 997 {
 			check(c06Key(1000+f), "filler")
@@ -150,7 +177,7 @@ func TestVerif_C06_Real(t *testing.T) {
 			R.Violation("C06|real|phantom", "address never indexed returned entries", map[string]interface{}{"variant": "real", "scenario": sc.name})
 		}
 		r.Close()
-		R.Sample(map[string]interface{}{"variant": "real", "scenario": sc.name, "per_address_counts": sc.counts, "filler_addresses": sc.filler, "pushes": seq})
+		R.Sample(map[string]interface{}{"variant": "real", "scenario": sc.name, "per_address_counts": sc.counts, "filler_addresses": sc.filler, "hot_addresses_with_two_batches": sc.hot, "pushes": seq})
 		os.RemoveAll(dir)
 	}
 	R.Bounds["real_scenarios"] = len(scs)
